@@ -73,7 +73,11 @@
 //     answer after 3 s => the export must fail (DESIGN.md names 300 ms / 20 ms
 //     / 5 s; the two delays keep either verdict far from the scheduler's
 //     noise: a late 30 ms timer still fires long before 3 s, and a correct
-//     long timeout never fires). gRPC timeout: the time left
+//     long timeout never fires). Programmatic timeouts are also drawn from
+//     values that are not whole milliseconds (250 us .. 2.5 ms): they are
+//     "short" for both transports - the collector (HTTP or gRPC) holds the
+//     request for 3 s or until the client has gone, and the export must fail
+//     before; a resolved "no timeout" would succeed after 3 s. gRPC timeout: the time left
 //     on the server-side context must lie in (T/2, T+100ms] for the winning
 //     T out of {5 s, 10 s default, 25 s, 60 s, 150 s}.
 package c20
@@ -123,6 +127,7 @@ type Src struct {
 	Extra string `json:"extra"` // additional header key only this source sets
 	Gzip  bool   `json:"gzip"`
 	Ms    int64  `json:"ms"` // timeout, milliseconds
+	Ns    int64  `json:"ns"` // option only: when not 0 the timeout is this many nanoseconds (not a multiple of a millisecond)
 	// invalid state: index into the table of invalid values of the setting
 	// and source class, and the kind (redundant, for the reader).
 	Bad     int    `json:"bad"`
@@ -350,6 +355,11 @@ func uniform(t *rapid.T, n int, label string) int {
 
 var grpcTimeouts = []int64{5000, 25000, 60000, 150000}
 
+// optionNanos: programmatic timeouts are time.Durations, not milliseconds:
+// values below one millisecond and values that are not a whole number of
+// milliseconds must be in force exactly as given.
+var optionNanos = []int64{250_000, 500_000, 750_000, 999_999, 1_500_000, 2_500_000, 1_234_567}
+
 func genOTLP(t *rapid.T) Case {
 	cell := uniform(t, 810, "cell")
 	var c Case
@@ -406,12 +416,20 @@ func genOTLP(t *rapid.T) Case {
 			// the winner says winnerFlag, everybody below the opposite
 			s.Gzip = winnerFlag == !seenValid
 		case "timeout":
+			ns := rapid.SampledFrom(optionNanos).Draw(t, "option_ns")
+			subMs := uniform(t, 6, "option_sub_ms")
 			if grpc {
 				s.Ms = grpcT[i]
+				if i == 0 && subMs < 2 {
+					s.Ns = ns
+				}
 			} else {
 				short := winnerFlag == !seenValid
 				if short {
 					s.Ms = int64(rapid.IntRange(10, 30).Draw(t, "short_ms"))
+					if i == 0 && subMs < 3 {
+						s.Ns = ns
+					}
 				} else {
 					s.Ms = int64(rapid.IntRange(5000, 30000).Draw(t, "long_ms"))
 				}
@@ -670,7 +688,10 @@ func expect(c Case) expectation {
 		}
 		e.toAssert = true
 		e.toT = time.Duration(ms) * time.Millisecond
-		e.toShort = ms < 1000
+		if w == 0 && srcs[0].Ns != 0 {
+			e.toT = time.Duration(srcs[0].Ns)
+		}
+		e.toShort = e.toT < time.Second
 		e.recv = c.FixColl
 		e.delivered = !e.toShort
 		if e.toShort {
@@ -696,7 +717,7 @@ func expect(c Case) expectation {
 				e.recv = c.ConnColl
 			}
 		case "timeout":
-			if e.toAssert {
+			if e.toAssert && !e.toShort {
 				e.recv = c.ConnColl
 			}
 		}
@@ -892,6 +913,9 @@ func apply(c Case, env *envSetter) optSet {
 				ms, _ = strconv.ParseInt(b.text, 10, 64)
 			}
 			d := time.Duration(ms) * time.Millisecond
+			if s.State == valid && s.Ns != 0 {
+				d = time.Duration(s.Ns)
+			}
 			o.timeout = &d
 		}
 	}
@@ -985,6 +1009,19 @@ func runOTLP(c Case) (vs []vk.Violation, info vk.Info) {
 	}
 	colls.httpDelay.Store(int64(delay))
 	defer colls.httpDelay.Store(0)
+	// gRPC: a timeout below a second (programmatic sub-millisecond values) is
+	// judged like the short HTTP ones: the collector holds the call for 3 s (or
+	// until the call is cancelled) and the export must be abandoned before.
+	gdelay := time.Duration(0)
+	if c.Setting == "timeout" && grpc && e.toAssert && e.toShort {
+		gdelay = 3 * time.Second
+	}
+	colls.grpcDelay.Store(int64(gdelay))
+	defer colls.grpcDelay.Store(0)
+	if c.Setting == "timeout" && e.v.winner == 0 && c.Opt.Ns != 0 {
+		info.Class("timeout/option_not_whole_ms/" + time.Duration(c.Opt.Ns).String())
+		info.Class("timeout/option_not_whole_ms/" + c.Exporter)
+	}
 
 	nonce := nextNonce()
 	// a definite expectation gets all the time it may need; an open outcome
@@ -1059,10 +1096,14 @@ func runOTLP(c Case) (vs []vk.Violation, info vk.Info) {
 			switch {
 			case !r.HasDL:
 				bad("timeout_mismatch", "no deadline", "%s: the request carries no deadline, expected %v (winner %s)", c.Exporter, e.toT, winnerName(e.v.winner))
-			case r.Deadline > e.toT+100*time.Millisecond || r.Deadline <= e.toT/2:
+			case r.Deadline > e.toT+100*time.Millisecond || (!e.toShort && r.Deadline <= e.toT/2):
 				bad("timeout_mismatch", r.Deadline.String(), "%s: %v left on the server-side deadline, expected a timeout of %v (winner %s)", c.Exporter, r.Deadline, e.toT, winnerName(e.v.winner))
 			}
 		}
+	}
+	// ---- timeout, gRPC, below one second ----
+	if e.toAssert && grpc && e.toShort && buildErr == nil && exportErr == nil {
+		bad("timeout_mismatch", "export succeeded", "%s: timeout %v (winner %s) but the export succeeded against a collector that holds the call for %v", c.Exporter, e.toT, winnerName(e.v.winner), gdelay)
 	}
 	// ---- timeout, HTTP ----
 	if e.toAssert && !grpc {
